@@ -43,6 +43,8 @@ def s_run(rng, budget_words=2600):
     if rng.random() < 0.2:
         j["fault"] = rng.randint(1, 3)  # caught illegal calls between draws and/or a victim thread that dies
     wall = rng.random() < 0.1, rng.uniform(0.05, 0.5), rng.choice([1, 3600, 400 * 86400, 2_000_000_000])
+    if rng.random() < 0.25:
+        j["vdefault"] = 1  # volute built with its DEFAULT feature set (the other runs: default-features = false, features = ["rand"])
     # keep the run inside the per-run budget: first shrink the biggest size, then D
     while words_of(j) > budget_words:
         m = max(j["sizes"])
@@ -89,7 +91,7 @@ def m_run(rng, reps):
     return j
 
 
-NOPS = 36  # keep in step with sim/src/ops.rs (20..27: the caller's own use of the rand crate)
+NOPS = 37  # keep in step with sim/src/ops.rs (20..27: the caller's own use of the rand crate)
 
 
 def g_run(rng):
@@ -105,6 +107,8 @@ def g_run(rng):
         j["clockq"] = rng.choice(CLOCKQ)
     if rng.random() < 0.3:
         j["release"] = 1
+    if rng.random() < 0.25:
+        j["vdefault"] = 1
     return j
 
 
